@@ -133,7 +133,14 @@ Pool0 == <<
   Any_("fresh_parse_record", NoArgs, EncRecordRaw(21, 771, <<1, 0, 2>>)),
   Any_("parse_tls_plaintext", NoArgs, EncRecordRaw(22, 771, <<14, 0, 0, 0, 11, 0, 0, 5, 1>>)),
   Any_("two_step", NoArgs, EncRecordRaw(22, 771, <<14, 0, 0, 0, 11, 0, 0, 5, 1>>)),
-  Any_("two_step", NoArgs, EncRecordRaw(22, 771, CH \o <<2, 0, 0, 40, 3, 3>>))
+  Any_("two_step", NoArgs, EncRecordRaw(22, 771, CH \o <<2, 0, 0, 40, 3, 3>>)),
+  (* a record through a stateful parser whose previous record was REFUSED, or that completed a defragmentation before: the value is *)
+  (* borrowed from THIS record (a parser that kept collecting would hand out slices of its own buffer)                              *)
+  Any_("hist_parse_record", [NoArgs EXCEPT !.sub = "badhs"], EncRecordRaw(22, 771, CH)),
+  Any_("hist_parse_record", [NoArgs EXCEPT !.sub = "defrag+badhs"], EncRecordRaw(22, 771, <<14, 0, 0, 0>> \o CERT)),
+  Any_("hist_parse_record", [NoArgs EXCEPT !.sub = "defrag"], EncRecordRaw(22, 771, CH)),
+  Any_("hist_parse_record", [NoArgs EXCEPT !.sub = "badct"], EncRecordRaw(23, 771, <<1, 2, 3>>)),
+  Any_("hist_parse_record", [NoArgs EXCEPT !.sub = "reset"], EncRecordRaw(24, 771, <<1, 0, 1, 9>> \o Fill(2, 16)))
   >>
 ASSUME TLCSet(4, Pool0 \o TagPool)
 Pool == TLCGet(4)
